@@ -1068,6 +1068,30 @@ def check_deadline(ctx, prog):
                     break
             if bad or und:
                 break
+        # what the wait reports comes from the operating system's answer, not from the clock: the same call interpreted with the
+        # native wait returning 0 (signalled / acquired) and its time-out code must give different results
+        if not bad and not und:
+            outs = {}
+            for code in (0, 110):
+                def timed2(run, e, args, code=code):
+                    return code if (e.get('fn') or '').startswith('pthread') else (0 if code == 0 else -1)
+                ext2 = dict(ext)
+                ext2['sem_timedwait'] = timed2
+                ext2['pthread_cond_timedwait'] = timed2
+                try:
+                    rn = scansim.Run(prog, f, {}, int_params={f['params'][0]['id']: 0.5}, mems={}, externs=ext2, objects=True, methods={'*': 'interp'})
+                    rcd = prog.records.get(f['cls']) or {}
+                    for fl in rcd.get('fields', []):
+                        if T(rcd, fl['t']).get('ptr'):
+                            rn.recs['peer:' + fl['n']] = scansim.PodRecord()
+                            rn.mems[fl['n']] = ('R', 'peer:' + fl['n'])
+                    outs[code] = rn.run()
+                    runs += 1
+                except (scansim.Unsupported, scansim.OOB, TypeError, KeyError, ValueError) as u:
+                    outs = None
+                    break
+            if outs is not None and bool(outs[0]) == bool(outs[110]):
+                bad = (1000.999999, 0.5, 'the function returns %s whether the native timed wait reports success or its time-out: a waiter woken by a signal (or timing out) is told the opposite' % bool(outs[0]))
         ctx.evaluations += runs
         if bad:
             ctx.violation('C13.deadline', f['pq'], role, fwhere(f), 'with the clock at %.6f s and a timeout of %s s: %s' % bad)
